@@ -14,6 +14,9 @@ import ast
 import os
 import z3
 from contracts.common import *  # noqa
+from contracts import structure
+from contracts.structure import *  # noqa
+from contracts.deferred_c import *  # noqa
 from contracts import common
 from pyvc import driver, frames
 from contracts.c18 import unit_emit_report  # noqa
@@ -308,6 +311,9 @@ def units(tier):
     # tokens that the operand encoder builds itself (regrouped index expressions) keep the span of the text that was written
     for sh in ("a+b(Rn)", "a-b(Rn)", "@a+b(Rn)", "-a(Rn)"):
         us.append(("rm[%s]" % sh, "unit_rm_encode", dict(shape=sh, lazy=False)))
+    # whole programs: the statement holds wherever a statement stands (repeat body, included / linked file, any block) - contracts/structure.py
+    us += structure.units()
+    us += structure.kernel_units()
     return us
 
 
@@ -319,6 +325,9 @@ def canary(eng):
 
 
 def replay(o, tree):
+    r_ = structure.replay(o, tree)
+    if r_ is not None:
+        return r_
     if (o.get("cfg") or {}).get("kind") == "repr":
         w = o.get("witness") or {}
         texts = [("a\tb\nc\t\td", None), ("x", None), ("\n\n\t", None)]
